@@ -12,13 +12,13 @@ use std::sync::OnceLock;
 
 pub fn monitor_c05() -> Monitor {
   Monitor { id: "C05",
-    rule: "cones: centres from the sphere / pole (log-uniform 1e-12..0.05 from it, and exact) / seam meridians k.pi/4 / transition-latitude generators, exact cell centres and cell vertices; radii: log-uniform 1e-10..pi, 1e-3..60 cell sizes of the query depth, radii at (1 +- {1e-12,1e-6,1e-3,1e-2,3e-2,5e-2}) x each best_starting_depth threshold (located by bisection), r > pi/2 and r -> pi; query depth 0..29 (internal depth+delta <= 29) with radius/cell <= 60 so that the result stays small; variants approx, custom(delta 0..4), flat. Oracle: >= 200 witness points strictly inside the cone (64 evenly spaced bearings at 0.999999 r, random rho) hashed with the crate's hash must be covered by the BMOC (cell or ancestor); for depth <= 4 every cell with one of 25 inner grid points inside the cone must be covered. Non-trivial = cone containing a pole, touching a seam meridian or the transition latitude, radius within 5% of a threshold, radius > pi/2, delta > 0, or centre exactly at a cell centre/vertex.",
+    rule: "cones: centres from the sphere / pole (log-uniform 1e-12..0.05 from it, and exact) / seam meridians k.pi/4 / transition-latitude generators, exact cell centres and cell vertices; radii: log-uniform 1e-10..pi, 1e-3..60 cell sizes of the query depth, radii at (1 +- {1e-12,1e-6,1e-3,1e-2,3e-2,5e-2}) x each best_starting_depth threshold (located by bisection), r > pi/2 and r -> pi, nearly-all-sky cones at query depths 12..25 whose excluded cap is 1e-3..60 cells wide (machines with > 40 GB); query depth 0..29 (internal depth+delta <= 29) with radius/cell <= 60 so that the result stays small; variants approx, custom(delta 0..4), flat. Oracle: >= 200 witness points strictly inside the cone (64 evenly spaced bearings at 0.999999 r, random rho) hashed with the crate's hash must be covered by the BMOC (cell or ancestor); for depth <= 4 every cell with one of 25 inner grid points inside the cone must be covered. Non-trivial = cone containing a pole, touching a seam meridian or the transition latitude, radius within 5% of a threshold, radius > pi/2, delta > 0, or centre exactly at a cell centre/vertex.",
     assumptions: &["Layer::hash (C01) locates the witnesses", "witnesses are kept only if their accurately recomputed distance is <= r(1-1e-9)"],
     run, replay }
 }
 pub fn monitor_c06() -> Monitor {
   Monitor { id: "C06",
-    rule: "same cones as C05 (same generator and seeds). For every returned cell: if flagged full, its 4 reference vertices and 12 reference edge points are within r(1+1e-9)+1e-14 of the centre; its centre is within r + 2 x the largest centre-to-vertex distance of the depth of the cell (measured per depth); r >= pi yields exactly the 12 full base cells; no four full siblings; well formed (C09 walker). Non-trivial as in C05, plus cones returning at least one full cell.",
+    rule: "same cones as C05 (same generator and seeds). For every returned cell: if flagged full, its 4 reference vertices and 12 reference edge points are within r(1+1e-9)+1e-14 of the centre; its centre is within r + 2 x the largest centre-to-vertex distance of the depth of the cell (measured per depth); for r > pi/2, 17 probes inside the excluded cap around the antipode of the centre must not fall in a full cell and the border points of full cells near the antipode are at >= pi - r from it (distances measured from the antipode, tolerance 2e-13); r >= pi yields exactly the 12 full base cells; no four full siblings; well formed (C09 walker). Non-trivial as in C05, plus cones returning at least one full cell.",
     assumptions: &["reference cell geometry (vertices / edge points)", "largest centre-to-vertex distance of a depth: measured exhaustively for depths 0..10 (0.8411 at depth 0 .. 1.06877/nside at depth 10), 1.0690/nside beyond (refm::cell_radius_bound)"],
     run, replay }
 }
@@ -29,6 +29,11 @@ fn coarse_cells(k: u8) -> &'static Vec<(u64, (f64, f64), [(f64, f64); 4])> {
   &T.get_or_init(|| (0..3u8).map(|k| (0..n_hash(k)).map(|h| (h, ref_center(k, h), ref_vertices(k, h))).collect()).collect())[k as usize]
 }
 
+/// more than 40 GB of RAM (MemTotal): the deep nearly-all-sky class needs 12 GB of untouched virtual memory per call
+pub fn big_memory() -> bool {
+  static M: OnceLock<bool> = OnceLock::new();
+  *M.get_or_init(|| std::fs::read_to_string("/proc/meminfo").ok().and_then(|s| s.lines().find(|l| l.starts_with("MemTotal:")).and_then(|l| l.split_whitespace().nth(1).and_then(|v| v.parse::<u64>().ok()))).map_or(false, |kb| kb > 40_000_000))
+}
 pub fn thresholds() -> &'static Vec<f64> { static T: OnceLock<Vec<f64>> = OnceLock::new(); T.get_or_init(bsd_thresholds) }
 
 pub fn gen_cone(rng: &mut Rng, allow_dd: bool) -> Case {
@@ -91,6 +96,15 @@ pub fn gen_cone(rng: &mut Rng, allow_dd: bool) -> Case {
       let depth2 = (k + rng.below(3) as u8).min(29 - dd);
       let r2 = if rng.below(4) == 0 { PI * (1.0 - rng.log_uniform(1e-12, 1e-3)) } else { PI - cellk * rng.log_uniform(1e-6, 0.5) };
       return Case::new("cone").u("depth", depth2 as u64).u("dd", dd.min(29 - depth2) as u64).f("lon", c.0).f("lat", c.1).f("r", r2.max(1e-10)).u("s", rng.next() >> 1);
+    }
+    // nearly-all-sky cones at deep query depths: the excluded cap around the antipode is 1e-3..60 cells of the working depth wide, so the
+    // result is small although radius/cell is huge (the crate reserves 4(1 + 2 sqrt3 nside r) entries of virtual memory per call:
+    // 12 GB at depth 25 — class generated only when the machine has more than 40 GB, and up to depth 25)
+    if rng.below(24) == 0 && big_memory() {
+      let depth2 = (12 + rng.below(14) as u8).min(25 - dd.min(4)); let dd2 = dd.min(4);
+      let rho = (1.0 / nside(depth2 + dd2) as f64) * rng.log_uniform(1e-3, 60.0);
+      if rng.below(3) == 0 { let k = rng.below(6) as u8; let cc = nested::get_or_create(k).center(rng.below(n_hash(k))); lon = cc.0; lat = cc.1; }
+      return Case::new("cone").u("depth", depth2 as u64).u("dd", dd2 as u64).f("lon", lon).f("lat", lat).f("r", PI - rho).u("s", rng.next() >> 1);
     }
     match rng.below(12) {
       0 => { let d = rng.below(30) as u8; let cs = sample_cells(rng, d, 4); let h = *rng.pick(&cs); let c = nested::get_or_create(d).center(h); lon = c.0; lat = c.1; }
@@ -223,9 +237,14 @@ pub fn judge(ctx: &mut Ctx, c: &Case) {
     ctx.evals_n(n_chk); ctx.bump("cones-with-exhaustive-cell-scan");
   }
   // variants agree
+  // (the flat variant materialises every cell of the query depth: only asked for when that is at most 2e6 cells — an allocation failure
+  //  aborts the process, it cannot be caught)
+  let deep_cells: f64 = cells.iter().map(|&(d, _, _)| 4f64.powi((depth - d.min(depth)) as i32)).sum();
   if dd == 0 && c.gu("s") % 3 == 0 {
     ctx.eval();
-    match catch(|| (nested::cone_coverage_approx_flat(depth, lon, lat, r), nested::cone_coverage_approx_custom(depth, 0, lon, lat, r))) {
+    let flat_ok = deep_cells <= 2e6;
+    if !flat_ok { ctx.bump("cones-too-large-for-the-flat-variant(custom(0)-only)"); }
+    match catch(|| (if flat_ok { nested::cone_coverage_approx_flat(depth, lon, lat, r) } else { Vec::new().into_boxed_slice() }, nested::cone_coverage_approx_custom(depth, 0, lon, lat, r))) {
       Err(p) => report(ctx, "C05", "cone-coverage-panics", c.clone().s("at", panic_loc(&p)), p),
       Ok((flat, cust)) => {
         // the property is stated per variant: each must cover every witness (equality between variants is not required)
@@ -234,7 +253,7 @@ pub fn judge(ctx: &mut Ctx, c: &Case) {
         for &(h, p, d) in wit_cells.iter() {
           // (a witness missed by approx itself is reported once, above, with its R5 attribution)
           if cover_c.get(depth, h).is_none() && cover.get(depth, h).is_some() { report(ctx, "C05", "cone-coverage-misses-a-cell-containing-a-point-of-the-cone", c.clone().s("variant", "custom(delta=0)").f("ratio", ratio).f("dlon_seam", dl).b("in_start_block", true), format!("witness {:?} at {:e} rad in cell {} not covered by custom(delta=0)", p, d, h)); break; }
-          let in_flat = if sorted { flat.binary_search(&h).is_ok() } else { flat.contains(&h) };
+          let in_flat = !flat_ok || if sorted { flat.binary_search(&h).is_ok() } else { flat.contains(&h) };
           if !in_flat && cover.get(depth, h).is_some() { report(ctx, "C05", "cone-coverage-misses-a-cell-containing-a-point-of-the-cone", c.clone().s("variant", "flat").f("ratio", ratio).f("dlon_seam", dl).b("in_start_block", true), format!("witness {:?} at {:e} rad in cell {} not in the flat array ({} cells)", p, d, h, flat.len())); break; }
         }
       }
@@ -264,6 +283,31 @@ pub fn judge(ctx: &mut Ctx, c: &Case) {
       for p in ref_border_points(d, h, 3) { let dp = dist(p, (lon, lat)); if dp > worst { worst = dp; wp = p; } }
       if worst > r * (1.0 + 1e-9) + 1e-14 { report(ctx, "C06", "cell-flagged-full-sticks-out-of-the-cone", c.clone().u("cd", d as u64).u("ch", h), format!("cell {}/{} border point {:?} at {:e} > r={:e} (excess {:e} = {:.4} cell); result {}", d, h, wp, worst, r, worst - r, (worst - r) * nside(d) as f64, fmt_cells(&cells))); break; }
     }
+  }
+  // radius > pi/2: the complement of the cone is a small cap of radius rho = pi - r around the antipode of the centre. Distances close to pi
+  // are measured from the antipode (well conditioned). (1) probes inside that cap (antipode, 16 points at 0.5 rho and 0.999 rho): the cell that
+  // contains a probe must not be flagged full; (2) border points of full cells: their distance to the antipode must be >= rho.
+  if r > PI / 2.0 {
+    let rho = PI - r; let anti = ((lon + PI).rem_euclid(TWO_PI), -lat);
+    let tol = far_tol(2e-13, lon);
+    let mut probes = vec![(anti, rho)];
+    for k in 0..16 { let f = if k % 2 == 0 { 0.5 } else { 0.999 }; let q = point_at(anti.0, anti.1, rho * f, (k as f64 + 0.25) * TWO_PI / 16.0); probes.push((q, rho - dist(q, anti))); }
+    'pr: for (q, margin) in probes { if !(margin > tol) { continue; } ctx.eval();
+      let h = match catch(|| layer.hash(q.0, q.1)) { Ok(h) => h, Err(_) => continue };
+      if cover.get(depth, h) == Some(true) {
+        // the reference model must agree that q is in that covered cell (not just on its border)
+        for &(d, hc, f) in cells.iter() { if f && h >> (2 * (depth - d)) == hc && contains(d, hc, q.0, q.1, 0.0).0 {
+          report(ctx, "C06", "cell-flagged-full-sticks-out-of-the-cone", c.clone().u("cd", d as u64).u("ch", hc).s("cls", "near-antipode"), format!("cell {}/{} flagged full contains {:?}, which is {:e} rad inside the cap of radius pi - r = {:e} around the antipode of the centre (outside the cone); result {}", d, hc, q, margin, rho, fmt_cells(&cells))); break 'pr; } }
+      }
+    }
+    ctx.hard("cone:complement-cap-probed(r>pi/2)", &fp);
+    if rho < 0.2 { 'cl: for &(d, h, f) in cells.iter() { if !f { continue; }
+      // only cells near the antipode matter
+      if dist(ref_center(d, h), anti) > rho + 2.0 * cell_radius_bound(d) { continue; }
+      ctx.eval();
+      for p in ref_border_points(d, h, 3) { let da = dist(p, anti); if da < rho - tol - 1e-9 * rho {
+        report(ctx, "C06", "cell-flagged-full-sticks-out-of-the-cone", c.clone().u("cd", d as u64).u("ch", h).s("cls", "near-antipode"), format!("cell {}/{} flagged full: border point {:?} is at {:e} rad from the antipode of the centre, inside the excluded cap of radius pi - r = {:e} (by {:e}); result {}", d, h, p, da, rho, rho - da, fmt_cells(&cells))); break 'cl; } }
+    } }
   }
   if any_full { ctx.hard("cone:returns-full-cells", &fp); }
   if ctx.samples.len() < 8 && hard && c.gu("s") % 11 == 0 { ctx.sample(c, &format!("{} cells ({} full), {} witnesses, start depth {:?}", cells.len(), cells.iter().filter(|x| x.2).count(), n_wit, dstart)); }
